@@ -124,7 +124,7 @@ def run(ctx):
         raise vlib.ToolFailure("self-test: a unit credited to the wrong stake address not reported as Conf.DistributionByPower only (got %s)" % v[:5])
     return dict(states=states, transitions=trans, histories=tot["scenarios"], blocks_recomputed=tot["blocks"], requests=tot["txs"], accepted=tot["accepted"],
                 blocks_by_case=seen, conformance_notes=conf, inductive_invariant_apalache=ind,
-                rule="every block of families %s: what reached the end-of-block routine (pool after + share increments) minus the pool before equals the fees charged by the accepted requests (gas used x price); shares are credited by floor(pool x power / total power) over the previous block's validator records when the pool exceeds the minimal fee; Value.* findings are violations of C02, Conf.* differences are notes" % ", ".join(FAMILIES))
+                rule="every block of families %s: what reached the end-of-block routine (pool after + share increments) minus the pool before is at most (Value) and exactly (Conf) the fees charged by the accepted requests (gas used x price); shares are credited by floor(pool x power / total power) over the previous block's validator records when the pool exceeds the minimal fee; Value.* findings are violations of C02, Conf.* differences are notes" % ", ".join(FAMILIES))
 
 
 def replay(ctx, path):
